@@ -33,6 +33,7 @@ var checks = map[string]func(*ctx){
 	"C16": runC16,
 	"C17": runC17,
 	"C18": runC18,
+	"C19": runC19,
 }
 
 func main() {
